@@ -54,6 +54,7 @@ class Ev:
         self.effects: List[Tuple] = []  # ("push"|"setattr"|"slotwrite"|"call", ...)
         self.returns: List[Tuple[Any, List[str]]] = []
         self.depth = 0
+        self.attr_values: Dict[str, Any] = {}  # instance attributes bound to a tuple / list display in __init__
 
     # -- expressions -----------------------------------------------------------------------------
     def ev(self, e: ast.AST, env: Dict[str, Any], fn: FunctionInfo, conds: List[str]):
@@ -82,6 +83,8 @@ class Ev:
                     return ("clsref",)
                 if e.attr in self.slots:
                     return ("slot", e.attr)
+                if e.attr in self.attr_values:
+                    return self.attr_values[e.attr]
                 return ("inst", e.attr)
             if base[0] == "clsref":
                 if e.attr in self.slots:
@@ -122,12 +125,33 @@ class Ev:
             if t[0] == "const":
                 return self.ev(e.body if t[1] else e.orelse, env, fn, conds)
             return ("ifexp", norm(e.test), self.ev(e.body, env, fn, conds), self.ev(e.orelse, env, fn, conds))
-        if isinstance(e, (ast.JoinedStr, ast.BinOp, ast.BoolOp, ast.Dict, ast.Starred)):
+        if isinstance(e, ast.BoolOp):
+            # operands after the first are evaluated only if the previous ones did not short-circuit
+            for k, v in enumerate(e.values):
+                self.ev(v, env, fn, conds if k == 0 else conds + [f"short-circuit of `{short(e, 40)}`"])
+            return ("opaque", norm(e))
+        if isinstance(e, (ast.GeneratorExp, ast.ListComp)) and len(e.generators) == 1 and not e.generators[0].ifs:
+            it = self.ev(e.generators[0].iter, env, fn, conds)
+            if it[0] in ("tuple", "list"):
+                lazy = env.get("#lazy")
+                for k, item in enumerate(it[1]):
+                    env2 = dict(env)
+                    self.assign(e.generators[0].target, item, env2, fn, conds, norm(e))
+                    c2 = conds + [f"short-circuit of {lazy}()"] if (lazy and k > 0) else conds
+                    self.ev(e.elt, env2, fn, c2)
+                return ("opaque", norm(e))
+            raise Unsupported(f"comprehension over {short(e.generators[0].iter)}")
+        if isinstance(e, (ast.JoinedStr, ast.BinOp, ast.Dict, ast.Starred)):
             return ("opaque", norm(e))
         raise Unsupported(f"expression {short(e)}")
 
     def call(self, e: ast.Call, env, fn: FunctionInfo, conds):
         f = e.func
+        if isinstance(f, ast.Name) and f.id in ("all", "any") and len(e.args) == 1 and isinstance(e.args[0], ast.GeneratorExp):
+            env2 = dict(env)
+            env2["#lazy"] = f.id  # a generator consumed by all()/any() stops at the first falsy / truthy element
+            self.ev(e.args[0], env2, fn, conds)
+            return ("opaque", norm(e))
         args = [self.ev(a, env, fn, conds) for a in e.args]
         kwargs = {k.arg: self.ev(k.value, env, fn, conds) for k in e.keywords if k.arg}
         if isinstance(f, ast.Name) and f.id == "type" and len(args) == 1 and args[0][0] == "self":
@@ -264,6 +288,22 @@ class Ev:
                 else:
                     env[k] = a if a == b else ("oneof", [a, b])
             return r1 and r2
+        if isinstance(st, ast.For) and not st.orelse:
+            it = self.ev(st.iter, env, fn, conds)
+            if it[0] in ("tuple", "list"):
+                for item in it[1]:
+                    self.assign(st.target, item, env, fn, conds, norm(st.target))
+                    if self.block(st.body, env, fn, conds):
+                        return True
+                return False
+            if it[0] == "opaque" and norm(st.iter).startswith("reversed(") and isinstance(st.iter, ast.Call) and st.iter.args:
+                inner = self.ev(st.iter.args[0], env, fn, conds)
+                if inner[0] in ("tuple", "list"):
+                    for item in reversed(inner[1]):
+                        self.assign(st.target, item, env, fn, conds, norm(st.target))
+                        if self.block(st.body, env, fn, conds):
+                            return True
+                    return False
         raise Unsupported(f"statement {type(st).__name__}: {short(st)}")
 
     def assign(self, t: ast.AST, v, env, fn, conds, text):
@@ -291,11 +331,12 @@ class Ev:
         raise Unsupported(f"assignment target {short(t)}")
 
 
-def run_method(idx, cls: ClassInfo, slots: set, name: str) -> Optional[Ev]:
+def run_method(idx, cls: ClassInfo, slots: set, name: str, attr_values: Optional[Dict[str, Any]] = None) -> Optional[Ev]:
     fn = idx.resolve_method(cls, name)
     if fn is None:
         return None
     ev = Ev(idx, cls, slots)
+    ev.attr_values = dict(attr_values or {})
     env: Dict[str, Any] = {}
     params = fn.all_param_names()
     env[params[0]] = ("self",)
@@ -471,7 +512,16 @@ def check_leaf(idx: ProgramIndex, rep: Report, cls: ClassInfo, defining: bool):
                 order_ok = enter.effects.index(push) < min(enter.effects.index(x) for x in enter_writes if x[1] == s)
                 if good and order_ok and not push[3]:
                     rep.ok("C17.S1", {"class": who, "slot": s, "captured_in": "__enter__", "capture": push[4]})
-                    rep.ok("C17.S2", {"class": who, "slot": s, "per_entry": f"push/pop on self.{attr}"})
+                    created = init_sets.get(attr) if init else None
+                    if created is not None and created[2][0] in ("list",) and not created[2][1] and not created[3]:
+                        rep.ok("C17.S2", {"class": who, "slot": s, "per_entry": f"push/pop on self.{attr}",
+                                          "stack_created_per_instance_in": "__init__"})
+                    else:
+                        rep.bad("C17.S2", F("C17.S2", (init.fn if init else enter.fn), f"self.{attr} not created in __init__",
+                                            f"the per-entry stack self.{attr} is not bound to a fresh list by __init__ (as resolved "
+                                            f"on {who}): a class-level list is shared by every setting class and every instance, so "
+                                            "contexts that are not exited in strict LIFO order (linalg_dtypes exits its parts in "
+                                            "entry order; setUp/tearDown pairs) restore each other's values"))
                 else:
                     why = ("captures " + str(pv) + " instead of the slot") if not good else (
                         "capture happens after the slot was overwritten" if not order_ok else "capture is conditional")
@@ -629,8 +679,10 @@ def check_composite(idx, rep: Report, cls: ClassInfo, leaf_classes: Dict[str, Cl
     who = f"{cls.module.name.split('.')[-1]}.{cls.name}"
     try:
         init = run_method(idx, cls, set(), "__init__")
-        enter = run_method(idx, cls, set(), "__enter__")
-        exit_ = run_method(idx, cls, set(), "__exit__")
+        groups = {e[1]: e[2] for e in init.effects if e[0] == "setattr" and e[2][0] in ("tuple", "list")
+                  and all(x[0] == "inst" for x in e[2][1])}
+        enter = run_method(idx, cls, set(), "__enter__", groups)
+        exit_ = run_method(idx, cls, set(), "__exit__", groups)
     except Unsupported as e:
         raise AnalysisError(f"{who}: composite protocol uses a construct the C17 model does not cover: {e}")
     subs_init = {}
